@@ -605,7 +605,7 @@ func (ck *Check) count() int {
 	if tier == "thorough" {
 		n = ck.Thorough
 	}
-	if v := os.Getenv("VERIF_COUNT_SCALE"); v != "" { // development aid only
+	if v := os.Getenv("VERIF_COUNT_SCALE"); v != "" { // set by the driver (thorough_scale)
 		if f, err := strconv.ParseFloat(v, 64); err == nil {
 			n = int(float64(n) * f)
 		}
